@@ -29,7 +29,7 @@ def run_one(m):
     try:
         for sub in ("include", "lib"):
             shutil.copytree(os.path.join(REPO, sub), os.path.join(d, sub))
-        edits = m.get("edits") or [{"file": m["file"], "old": m["old"], "new": m["new"]}]
+        edits = m.get("edits") or [{"file": m["file"], "old": m["old"], "new": m["new"], "count": m.get("count", 1)}]
         for e in edits:
             p = os.path.join(d, e["file"])
             with open(p) as fh:
